@@ -7,6 +7,9 @@ hook_shas = [l.split()[0] for l in hooks_commits if l.split(' ',1)[1].startswith
 
 # property id -> (engine, technique, level text, level note, design_ref)
 CHECKS = {
+ 'C08': ('query', 'bounded-exhaustive enumeration of query programs (constraint menu derived from each store, ordered pairs/triples, unions, limits, sub-query templates, three spellings, ADD/DELETE) x 14 small stores, differential and reference oracles; exhaustive check of Handles set operations and LimitIter',
+         'On 14 stores (<= 6 annotations, all selector families, two resources/datasets) every constraint of a ~55-entry per-store menu for each of the six result types is evaluated as primary and as secondary constraint and compared; constraint lists of length 2 (quick) / 3 (thorough) in every order; unions of two branches against set union; LIMIT b e against the slice of the unlimited result; sub-queries against nested iteration (OPTIONAL included); STAMQL text vs programmatic Query vs iterator API; unambiguous constraints against the reference model; ADD/DELETE against the direct calls (dump equality); Handles::union/intersection/contains on all pairs of sub-sequences of 0..6 and LimitIter for n <= 7, b,e in -8..8.',
+         'Bounded stores and menus; LIMIT read as Python slice; a constraint kind empty in both positions on every store is treated as not applicable; findings on a constraint mask further comparisons involving it.', 'DESIGN.md section 4 C08'),
  'C19': ('mutload', 'exhaustive 1-deviation (quick) / 2-deviation (thorough, small seeds) mutation space of seed documents produced by the library itself, each loaded by the real loader in an isolated worker process with allocation cap and wall-clock limit',
          'Seeds (STAM JSON stores for each selector family with gaps and temporary ids, annotation arrays, dataset files, STAM CSV files, CBOR files, hand-written cyclic/dangling @include stores) are mutated at every position with every operator (JSON tree: delete / duplicate / swap / retype to 14 values / @type rename / reference redirection / selector wrapping; CSV: every cell to 15 values, row and column operations; CBOR: every truncation, bit flip and 5 byte values); the loader must return Err or a store that passes the C01-C03 consistency checks, never panic, abort, exceed the allocation cap or the time limit; all strings of length <= 3 go through the small string parsers.',
          'Time proportionality approximated by a 5 s limit; memory by a 1 GiB / 256 MiB-per-request cap; bounded seed set.', 'DESIGN.md section 4 C19'),
